@@ -20,7 +20,7 @@ PROPS = {
     "C01": {"lean": ["ICG.Props.C01", "ICG.Props.FloatError"], "streams": [("corr_bounds", "C01"), ("corr_hist", "C01")], "rule": _BOUNDS_RULE,
             "assumptions": ["float rounding is outside the theorems; exact stream uses integer/dyadic values on which float64 arithmetic is exact"],
             "quick_s": 60, "thorough_s": 600},
-    "C02": {"lean": "ICG.Props.C02", "streams": [("corr_bounds", "C02")], "rule": _BOUNDS_RULE, "quick_s": 60, "thorough_s": 600},
+    "C02": {"lean": "ICG.Props.C02", "streams": [("corr_bounds", "C02"), ("corr_hist", "C02")], "rule": _BOUNDS_RULE, "quick_s": 60, "thorough_s": 600},
     "C03": {"lean": "ICG.Props.C03", "streams": [("corr_bounds", "C03"), ("corr_hist", "C03")], "rule": _BOUNDS_RULE, "quick_s": 60, "thorough_s": 600},
     "C04": {"lean": "ICG.Props.C04", "streams": [("corr_bounds", "C04"), ("corr_hist", "C04")], "rule": _BOUNDS_RULE, "quick_s": 90, "thorough_s": 900},
     "C07": {"lean": ["ICG.Props.C07", "ICG.Props.C07Gaps"], "streams": [("corr_bounds", "C07"), ("corr_shapley", "C07"), ("corr_env", "C07env")], "rule": _BOUNDS_RULE, "quick_s": 60, "thorough_s": 600},
